@@ -22,6 +22,36 @@ META = {
 
 MAINL = ["main.%d:257" % i for i in range(10)]   # harness copy loops (<= 256 bytes)
 
+RO_OPS = {"READ": 1, "WRITE": 2, "WRITE_BYTE": 3, "FLUSH": 4, "ZEROOUT": 5, "DISCARD": 6, "SET_BLKSIZE": 7,
+          "CLOSE": 8, "CACHE_OFF": 9}
+
+def ro_uw(cs, cnt=1):
+    n = abs(cnt) + 1
+    return (["vf_do_read.0:26", "vf_do_write.0:26", "vf_do_read.1:18", "vf_do_write.1:18", "vf_fallocate.0:26",
+             "vf_ftruncate.0:26", "raw_read_blk.0:2", "raw_read_blk.1:2", "raw_write_blk.0:2", "raw_write_blk.1:2",
+             "vf_inv.0:27", "vf_inv.1:27", "vf_inv.2:27", "vf_decode.0:27", "vf_decode.1:27", "vf_decode.2:27",
+             "strlen.0:3", "strcpy.0:3", "strcmp.0:8"]
+            + ["main.%d:26" % i for i in range(16)]
+            + ["find_cached_block.0:%d" % (cs + 1), "flush_cached_blocks.0:%d" % (cs + 1),
+               "flush_cached_blocks.1:%d" % (cs + 1), "flush_cached_blocks.2:%d" % (cs + 2),
+               "alloc_cache.0:9", "free_cache.0:9"]
+            + ["unix_read_blk64.%d:%d" % (i, n) for i in range(3)] + ["unix_write_blk64.0:%d" % n])
+
+def ro_cfgs():
+    small = {"E2FSPROGS_VERIF_CACHE_SIZE": 4, "E2FSPROGS_VERIF_WRITE_DIRECT_SIZE": 2}
+    c = []
+    tiny = {"E2FSPROGS_VERIF_CACHE_SIZE": 2, "E2FSPROGS_VERIF_WRITE_DIRECT_SIZE": 1}
+    for cnt in (1, 3, -3):
+        c.append(dict(small, OP=RO_OPS["WRITE"], CNT=cnt, _unwindset=ro_uw(4, cnt)))
+    c.append(dict(small, OP=RO_OPS["WRITE"], CNT=2, _unwindset=ro_uw(4, 2), _tier="thorough"))
+    for op in ("WRITE_BYTE", "FLUSH", "ZEROOUT", "DISCARD", "CLOSE", "SET_BLKSIZE", "CACHE_OFF", "READ"):
+        c.append(dict(small, OP=RO_OPS[op], _unwindset=ro_uw(4)))
+    c.append(dict(small, OP=RO_OPS["DISCARD"], WITH_BLKDEV=None, _unwindset=ro_uw(4)))
+    c.append(dict(small, OP=RO_OPS["ZEROOUT"], WITH_BLKDEV=None, _unwindset=ro_uw(4)))
+    c.append(dict(tiny, OP=RO_OPS["FLUSH"], WITH_HANDLER=None, _unwindset=ro_uw(2), _tier="thorough"))
+    c.append(dict(small, OP=RO_OPS["WRITE"], CNT=1, WITH_HANDLER=None, _unwindset=ro_uw(4), _tier="thorough"))
+    return c
+
 HARNESSES = [
     dict(name="ro_inode", src="ro_inode.c",
          extra_src=["lib/ext2fs/blknum.c", "lib/ext2fs/io_manager.c"],
@@ -79,6 +109,12 @@ HARNESSES = [
          backends=["default", "kissat"],
          bound="ctx->options (READONLY forced on; config RW: forced off), reset, drop, prior dirty state of the buffer, first 64 "
                "bytes of the journal superblock, tail sequence, separate/shared journal channel: all symbolic"),
+    dict(name="unix_ro", src="unix_ro.c",
+         funcs=["unix_open", "unix_write_blk64", "flush_cached_blocks", "reuse_cache", "raw_write_blk"],
+         configs=ro_cfgs(), unwind=7, backends=["default", "kissat"],
+         bound="block size 2 bytes, 6 blocks; scaled cache geometry (4 entries, direct threshold 2: hook H1); all cache entries "
+               "symbolic under Inv (dirty entries allowed); one operation, count concrete per query in {1,2,3,-3}, "
+               "block/offset/length/data symbolic; regular file or block device per query"),
 ]
 MANIFEST = {
     "text": "Library-level slice, bounded-exhaustive over the flag word: for every value of fs->flags without EXT2_FLAG_RW the "
